@@ -53,7 +53,21 @@ fn type_name(t: &syn::Type) -> String {
 /// canonical text of a type argument (references and lifetimes dropped): `u32`, `[u8]`, `Option<[u8]>`, `str`
 pub fn spec_key_syn(t: &syn::Type) -> String {
     match t {
-        syn::Type::Reference(r) => spec_key_syn(&r.elem),
+        // `&str` and `&[T]` are the value types `str` / `[T]` of the embedding; a reference to a sized type keeps its `&`
+        // (`__ElemDispatch<char>` and `__ElemDispatch<&char>` are different impls)
+        syn::Type::Reference(r) => {
+            let inner = spec_key_syn(&r.elem);
+            let unsized_elem = match &*r.elem {
+                syn::Type::Slice(_) => true,
+                syn::Type::Path(p) => p.path.is_ident("str"),
+                _ => false,
+            };
+            if unsized_elem {
+                inner
+            } else {
+                format!("&{}", inner)
+            }
+        }
         syn::Type::Paren(p) => spec_key_syn(&p.elem),
         syn::Type::Group(p) => spec_key_syn(&p.elem),
         syn::Type::Slice(s) => format!("[{}]", spec_key_syn(&s.elem)),
@@ -76,7 +90,7 @@ pub fn spec_key_syn(t: &syn::Type) -> String {
 }
 
 /// impls of these types are told apart by their (concrete) type arguments
-const SPECIALISED: &[&str] = &["CmpWrapper", "StdParser"];
+const SPECIALISED: &[&str] = &["CmpWrapper", "StdParser", "__ElemDispatch", "__MakeSepArg", "__NormalizeConcatArg"];
 
 fn specialised_name(t: &syn::Type, g: &syn::Generics) -> Option<String> {
     let base = type_name(t);
